@@ -33,6 +33,17 @@ INVARIANT_TEXT = (
 )
 
 
+INVARIANT_TEXT_COUNTED = (
+    "THIS TREE COUNTS TOMBSTONES (field ObjectHashMap::tombstones): Inv(T), capacity N = 8 (EMPTY = key 0, DELETED = key 1, live = key > 1; home(k) = k & (N-1)): "
+    "(I1) capacity == data.len() == N; (I2) entries == number of live slots; (I3) live keys pairwise distinct; "
+    "(I4) for every live slot i no slot on the cyclic walk home(key_i) .. i-1 is EMPTY; (I5) entries <= N - N/4; "
+    "(I9) tombstones == number of DELETED slots; (I10) entries + tombstones <= N - N/4 (= 6), hence (I6) at least N/4 = 2 slots are EMPTY and every probe terminates. "
+    "I1-I6, I9, I10 is inductive for ARBITRARY keys (family B, all 8 home slots, wrap-around) under get / insert (entries + tombstones <= 5: no rehash) / remove (entries >= 2), "
+    "and is re-established by every rehash (epoch change, underflow, overflow: entries + tombstones + 1 > 6 rebuilds with capacity_for_entries(entries + 1), i.e. 8 or 16); "
+    "the 8-alignment of keys (family A, with I7 prefix / I8) is kept as an additional family but is no longer needed for termination. Functional step as in the uncounted version."
+)
+
+
 def bounds_text(tier):
     nb, nc, ng = limits(tier)
     return ("capacity 8; family A (8-aligned keys, full invariant): all states; family B (arbitrary keys): at most %d non-EMPTY slots (live or DELETED, at symbolic positions); "
@@ -66,10 +77,14 @@ def value(K, V, q):
     return acc
 
 
-def inv_parts(K, n, aligned):
-    """named parts of the invariant for a table with keys K (python list of terms, len N) and entries n"""
+def inv_parts(K, n, aligned, tomb=None):
+    """named parts of the invariant for a table with keys K (python list of terms, len N) and entries n;
+    tomb: the table's tombstone counter, for trees that have one"""
     N = len(K)
     P = {}
+    if tomb is not None:
+        P["I9 tombstones == DELETED slots"] = tomb == cnt([k == 1 for k in K])
+        P["I10 entries + tombstones <= capacity - capacity/4"] = z3.And(ule(n, N), ule(tomb, N), ule(n + tomb, N - N // 4))
     P["I2 entries == live slots"] = n == cnt([live(k) for k in K])
     P["I3 live keys distinct"] = z3.And(*[z3.Implies(z3.And(live(K[i]), live(K[j])), K[i] != K[j]) for i in range(N) for j in range(i + 1, N)])
     ch = []
@@ -89,8 +104,16 @@ def inv_parts(K, n, aligned):
 
 def harnesses(E, tier):
     NB, NC, NG = limits(tier)
+    # a tree whose table counts its tombstones (the fix of finding table/tombstones-fill-table/cap16) is checked against the
+    # stronger invariant I9/I10, which makes "an EMPTY slot exists" inductive for arbitrary keys as well
+    TOMB = "tombstones" in E.L.fields(WL, "ObjectHashMap")
+    global INVARIANT_TEXT
+    if TOMB:
+        INVARIANT_TEXT = INVARIANT_TEXT_COUNTED
     ins = [("k%d" % i, "usize") for i in range(CAP)] + [("v%d" % i, "usize") for i in range(CAP)] + \
-          [("entries", "usize"), ("epoch", "usize"), ("rt", "usize"), ("key", "usize"), ("val", "usize")]
+          [("entries", "usize"), ("epoch", "usize"), ("rt", "usize"), ("key", "usize"), ("val", "usize")] + ([("tomb", "usize")] if TOMB else [])
+    tomb_of = (lambda I: I["tomb"]) if TOMB else (lambda I: None)
+    load = (lambda I: I["entries"] + I["tomb"]) if TOMB else (lambda I: I["entries"])
 
     def KV(I):
         return [I["k%d" % i] for i in range(CAP)], [I["v%d" % i] for i in range(CAP)]
@@ -98,8 +121,9 @@ def harnesses(E, tier):
     def mk(it, I):
         K, V = KV(I)
         ents = [E.L.make(WL, "HashMapEntry", key=E.addr(k), value=Int(U(v), "u64")) for k, v in zip(K, V)]
+        extra = {"tombstones": Int(U(I["tomb"]), "usize")} if TOMB else {}
         tbl = E.L.make(WL, "ObjectHashMap", data=G.mk_box_slice(ents), entries=Int(U(I["entries"]), "usize"),
-                       capacity=Int(CAP, "usize"), gc_epoch=Int(U(I["epoch"]), "usize"))
+                       capacity=Int(CAP, "usize"), gc_epoch=Int(U(I["epoch"]), "usize"), **extra)
         it.hooks["get_runtime"] = lambda it_, ctx_, fn, args: Ref(Cell(Opaque("runtime"), "rt"))
         it.hooks["Runtime::gc_epoch"] = lambda it_, ctx_, fn, args: Int(U(I["rt"]), "usize")
         return Cell(tbl, "table")
@@ -116,6 +140,10 @@ def harnesses(E, tier):
             v = e.fields[ei("value")]
             V2.append(v.t if isinstance(v, Int) else ctx.fresh("uninit", "u64").t)
         return K2, V2, t.fields[fi("entries")].t, t.fields[fi("capacity")].t, t.fields[fi("gc_epoch")].t
+
+    def read_tomb(cell, O):
+        if TOMB:
+            O["tombstones"] = cell.v.fields[fi("tombstones")].t
 
     def optval(r):
         if r.variant == "Some":
@@ -138,6 +166,7 @@ def harnesses(E, tier):
                 O["res_some"], O["res_val"] = optval(it.call(ctx, "ObjectHashMap::remove", [me, k]))
             O["get2_some"], O["get2_val"] = optval(it.call(ctx, "ObjectHashMap::get", [me, k]))
             O["keys"], O["vals"], O["entries"], O["capacity"], O["epoch"] = read(cell, ctx)
+            read_tomb(cell, O)
             return O
         return f
 
@@ -145,7 +174,7 @@ def harnesses(E, tier):
         def cmd(v):
             slots = ",".join("%d:%d" % (v["k%d" % i], v["v%d" % i]) for i in range(CAP))
             o = "%s:%d" % (op, v["key"]) + (":%d" % v["val"] if op == "insert" else "")
-            return ["table", slots, v["entries"], v["epoch"], v["rt"], o, "get:%d" % v["key"]]
+            return ["table", slots, ("%d/%d" % (v["entries"], v["tomb"])) if TOMB else v["entries"], v["epoch"], v["rt"], o, "get:%d" % v["key"]]
 
         def opt(t):
             return (True, num(t[5:])) if t.startswith("Some:") else (False, 0)
@@ -157,6 +186,8 @@ def harnesses(E, tier):
             o["keys"] = [num(x) for x in r["keys"].split(",")]
             o["vals"] = [0 if x == "-" else num(x) for x in r["values"].split(",")]
             o["entries"], o["capacity"], o["epoch"] = num(r["entries"]), num(r["capacity"]), num(r["gc_epoch"])
+            if TOMB:
+                o["tombstones"] = num(r["tombstones"])
             return o
         return cmd, parse
 
@@ -194,7 +225,7 @@ def harnesses(E, tier):
         return c
 
     def post_inv(I, O, aligned, skip=()):
-        P = inv_parts(O["keys"], O["entries"], aligned and len(O["keys"]) == CAP)
+        P = inv_parts(O["keys"], O["entries"], aligned and len(O["keys"]) == CAP, O.get("tombstones"))
         c = [("I1 capacity field != data.len()", O["capacity"] == len(O["keys"]))]
         for name, cond in P.items():
             if not any(name.startswith(s) for s in skip):
@@ -213,7 +244,7 @@ def harnesses(E, tier):
 
     def pre_inv(I, aligned):
         K, _ = KV(I)
-        return z3.And(*inv_parts(K, I["entries"], aligned).values())
+        return z3.And(*inv_parts(K, I["entries"], aligned, tomb_of(I)).values())
 
     def rehashed(op, I, O):
         """the table was rebuilt: epoch recorded, no tombstone left except the one of the key remove() has just deleted"""
@@ -224,11 +255,13 @@ def harnesses(E, tier):
         return [("table not rebuilt (tombstones dropped, epoch recorded) for the new epoch", z3.Implies(I["entries"] != 0, done) if op == "get" else done)]
 
     hs = []
-    rng_ops = {"get": lambda I: z3.BoolVal(True), "insert": lambda I: ule(I["entries"], 5), "remove": lambda I: ule(2, I["entries"])}
+    rng_ops = {"get": lambda I: z3.BoolVal(True), "insert": lambda I: ule(load(I), 5), "remove": lambda I: ule(2, I["entries"])}
 
     # ---- samples for translator validation (any state will do; no full tables: probing would not terminate)
     def samp(keys, vals, entries, epoch, rt, key, val=77):
         d = {"entries": entries, "epoch": epoch, "rt": rt, "key": key, "val": val}
+        if TOMB:
+            d["tomb"] = sum(1 for k in keys if k == 1)
         for i in range(CAP):
             d["k%d" % i], d["v%d" % i] = keys[i], vals[i]
         return d
@@ -282,7 +315,7 @@ def harnesses(E, tier):
             b = base_spec(op, I, O, "%s (arbitrary keys)" % op)
             if b:
                 return b
-            return functional(op, I, O) + post_inv(I, O, False, skip=("I6",)) + [("capacity changed without a rehash condition", O["capacity"] == CAP),
+            return functional(op, I, O) + post_inv(I, O, False, skip=() if TOMB else ("I6",)) + [("capacity changed without a rehash condition", O["capacity"] == CAP),
                                                                                    ("gc epoch of the table changed", O["epoch"] == I["epoch"])]
 
         def twB(I, O, op=op):
@@ -294,7 +327,7 @@ def harnesses(E, tier):
             if op == "insert":
                 t.append(("insert uses up the last EMPTY slot (I6 not inductive for arbitrary hashes)", z3.And(*[k != 0 for k in O["keys"]])))
             return t
-        needB = ["probe wraps around the end of the table", "key absent"] + (["insert uses up the last EMPTY slot (I6 not inductive for arbitrary hashes)"] if op == "insert" and NB >= 7 else [])
+        needB = ["probe wraps around the end of the table", "key absent"] + (["insert uses up the last EMPTY slot (I6 not inductive for arbitrary hashes)"] if op == "insert" and NB >= 7 and not TOMB else [])
         hs.append(H("table-B/" + op, "ObjectHashMap::%s, arbitrary keys" % op, ins,
                     lambda I, op=op: z3.And(pre_inv(I, False), arg_ok(I, False), I["epoch"] == I["rt"], rng_ops[op](I), ule(cnt([k != 0 for k in KV(I)[0]]), NB)),
                     sym(op), nat(op), specB, twB, samples(op), need=needB, max_steps=6000, depth=8, qfbv=True))
@@ -321,8 +354,9 @@ def harnesses(E, tier):
         # the same with arbitrary keys: the collector rewrote the live keys in place, so they no longer sit on their probe chains
         def preG(I, op=op):
             K, _ = KV(I)
-            P = inv_parts(K, I["entries"], False)
-            return z3.And(P["I2 entries == live slots"], P["I3 live keys distinct"], P["I6 an EMPTY slot exists"], ule(I["entries"], NG), arg_ok(I, False), I["epoch"] != I["rt"])
+            P = inv_parts(K, I["entries"], False, tomb_of(I))
+            return z3.And(P["I2 entries == live slots"], P["I3 live keys distinct"], P["I6 an EMPTY slot exists"], ule(I["entries"], NG), arg_ok(I, False), I["epoch"] != I["rt"],
+                          *[c for n, c in P.items() if n.startswith(("I9", "I10"))])
 
         def specG(I, O, op=op):
             b = base_spec(op, I, O, "%s after a collection (arbitrary keys)" % op)
@@ -357,12 +391,12 @@ def harnesses(E, tier):
         if b:
             return b
         c = functional("insert", I, O) + post_inv(I, O, False)
-        c.append(("table did not grow to capacity 16", O["capacity"] == 16))
+        c.append(("table not rebuilt with capacity_for_entries(entries + 1)", O["capacity"] == z3.If(ule(I["entries"], 5), bv(8), bv(16))))
         c.append(("tombstones survive the rehash", z3.And(*[k != 1 for k in O["keys"]])))
         return c
     hs.append(H("table-C/overflow/insert", "ObjectHashMap::insert -> overflow() -> rehash(capacity_for_entries(7) == 16)", ins,
-                lambda I: z3.And(pre_inv(I, True), arg_ok(I, True), I["epoch"] == I["rt"], I["entries"] == 6), sym("insert"), nat("insert"), specO,
-                lambda I, O: [] if O["panic"] or O["hang"] else [("a key lands in the upper half (home 8)", z3.Or(*[live(k) for k in O["keys"][8:]])), ("new key", z3.Not(present(KV(I)[0], I["key"])))],
+                lambda I: z3.And(pre_inv(I, True), arg_ok(I, True), I["epoch"] == I["rt"], load(I) == 6), sym("insert"), nat("insert"), specO,
+                lambda I, O: [] if O["panic"] or O["hang"] else [("a key lands in the upper half (home 8)", z3.Or(*[live(k) for k in O["keys"][8:]]) if len(O["keys"]) > 8 else False), ("new key", z3.Not(present(KV(I)[0], I["key"])))],
                 samples("insert"), need=["a key lands in the upper half (home 8)", "new key"], max_steps=60000, depth=8, qfbv=True))
     hs.append(history16(E, mk_empty=lambda it, I: mk_table_any(E, it, [], [], 0, I["rt"], I["rt"]), read=read, optval=optval))
     return hs
@@ -373,8 +407,9 @@ FINDING_KEY = "table/tombstones-fill-table/cap16"
 
 def mk_table_any(E, it, K, V, entries, epoch, rt):
     ents = [E.L.make(WL, "HashMapEntry", key=E.addr(k), value=Int(U(v), "u64")) for k, v in zip(K, V)]
+    extra = {"tombstones": Int(0, "usize")} if "tombstones" in E.L.fields(WL, "ObjectHashMap") else {}
     tbl = E.L.make(WL, "ObjectHashMap", data=G.mk_box_slice(ents), entries=Int(U(entries), "usize"),
-                   capacity=Int(len(K), "usize"), gc_epoch=Int(U(epoch), "usize"))
+                   capacity=Int(len(K), "usize"), gc_epoch=Int(U(epoch), "usize"), **extra)
     it.hooks["get_runtime"] = lambda it_, ctx_, fn, args: Ref(Cell(Opaque("runtime"), "rt"))
     it.hooks["Runtime::gc_epoch"] = lambda it_, ctx_, fn, args: Int(U(rt), "usize")
     return Cell(tbl, "table")
